@@ -659,6 +659,32 @@ def parse_rect(text):
     return values if len(values) == 4 else None
 
 
+def clip_matches(clip, want):
+    """A clip path of the stack against a wanted path (string, up to 1e-4) or a wanted region
+    ('region', (x0, x1, y0, y1), …): a rectangle of either orientation covering exactly that region."""
+    if not isinstance(want, tuple):
+        return close(clip, want)
+    rect = parse_rect(clip)
+    if rect is None:
+        return False
+    x, y, w, h = rect
+    got = (min(x, x + w), max(x, x + w), min(y, y + h), max(y, y + h))
+    return all(abs(g - e) <= Fraction(1, 10000) for g, e in zip(got, want[1]))
+
+
+def css_clip_region(box):
+    """CSS 2.1 11.1.2: rect(top, right, bottom, left) are offsets from the top-left corner of the border box,
+    `auto` is the border edge of that side.  -> ('region', (x0, x1, y0, y1), exactly one of left/right is auto)"""
+    top, right, bottom, left = box.style['clip']
+    bbx, bby = Fraction(box.border_box_x()), Fraction(box.border_box_y())
+    bw, bh = Fraction(box.border_width()), Fraction(box.border_height())
+    x0 = bbx + (0 if left == 'auto' else Fraction(left))
+    x1 = bbx + (bw if right == 'auto' else Fraction(right))
+    y0 = bby + (0 if top == 'auto' else Fraction(top))
+    y1 = bby + (bh if bottom == 'auto' else Fraction(bottom))
+    return ('region', (min(x0, x1), max(x0, x1), min(y0, y1), max(y0, y1)), (left == 'auto') != (right == 'auto'))
+
+
 def geometry_violation(page_box, events, exempt=True, findings=None):
     """`events` = geometric display list (list of tokens) of the page; boxes must be tagged (`_vid`).
     Ordinary boxes, four-sided borders, no outlines, tables of the separated borders model: what the geometry
@@ -690,8 +716,11 @@ def geometry_violation(page_box, events, exempt=True, findings=None):
                 which = box.style['background_clip'][0]
                 area = spec_rounded(box, spec_insets(box, which))
                 rect = f're({show_dec(area[0])},{show_dec(area[1])},{show_dec(area[2])},{show_dec(area[3])})'
+                own_clips = list(clip_ancestors)
+                if box.is_absolutely_positioned() and box.style['clip']:
+                    own_clips.append(css_clip_region(box))       # the box's own `clip` applies to its background
                 want_bg.setdefault(str(code), []).append(
-                    (box._vid, which, rect, spec_path(area), list(clip_ancestors)))
+                    (box._vid, which, rect, spec_path(area), own_clips))
             widths = [getattr(box, f'border_{s}_width', 0) for s in ('top', 'right', 'bottom', 'left')]
             if all(widths) and box.style['visibility'] == 'visible':
                 code = color_code(get_color(box.style, 'border_top_color'))
@@ -804,15 +833,25 @@ def geometry_violation(page_box, events, exempt=True, findings=None):
             continue
         ok = False
         for vid, which, rect, clip_path, anc in cands:
-            if (close(geom, rect) and len(clips) >= 2 and close(clips[-2], clip_path) and close(clips[-1], rect)
-                    and all(any(close(c, w) for c in clips) for w in anc)):
+            if not (close(geom, rect) and len(clips) >= 2 and close(clips[-2], clip_path) and close(clips[-1], rect)):
+                continue
+            missing = [w for w in anc if not any(clip_matches(c, w) for c in clips)]
+            if not missing:
                 ok = True
                 break
+            if all(isinstance(w, tuple) and w[2] for w in missing):
+                # known finding: `clip` with exactly one of left / right `auto` clips to the wrong strip
+                findings.add('clip-auto-sides-swapped')
+                if exempt:
+                    ok = True
+                    break
         if not ok:
             vid, which, rect, clip_path, anc = cands[0]
+            shown = [w if not isinstance(w, tuple) else
+                     'clip region x in [%s, %s], y in [%s, %s]' % tuple(show_dec(v) for v in w[1]) for w in anc]
             return (f'background of colour {color} is painted in {geom} inside the clips {clips}; box {vid} '
-                    f'(background-clip {which}) prescribes {rect} inside its {which} {clip_path} and the overflow '
-                    f'clips {anc}')
+                    f'(background-clip {which}) prescribes {rect} inside its {which} {clip_path} and the overflow / '
+                    f'clip-property clips {shown}')
     return None
 
 
